@@ -33,9 +33,10 @@ MORE = ["nat", "function", "list", "int", "real", "expr", "hoare"]
 
 
 def keyf(e):
-    # one root cause, one key: a line whose argument is a type instantiation cannot be parsed back
-    if e.get("kind") == "export" and "'" in (e.get("rt") or {}).get("exc", "") and ":=" in e["rt"]["exc"]:
-        return "type-instantiation-argument-printed-with-:="
+    # one root cause, one key: the printed line that cannot be parsed back, by its rule
+    ln = (e.get("rt") or {}).get("line") if e.get("kind") == "export" else None
+    if ln:
+        return "printed-line-not-parsable:%s" % ln["rule"]
     return e.get("key")
 
 
@@ -102,6 +103,9 @@ def run(rep, tier):
 def _run(rep, quick, wd):
     rnd = random.Random(seed())
     maxn = 4 if quick else 5
+    from harness.core import REPO, VERIF
+    if str(REPO) == "/repo":
+        shutil.rmtree(VERIF / "replays" / "X02", ignore_errors=True)       # replays of earlier runs are stale
     rep.rule = ("TLC: every proof-term DAG of <= %d nodes (each non-leaf cites the latest node, every node used) over assume/sorry/"
                 "reflexive/theorem leaves, atoms, implies_intr/symmetric/substitution, implies_elim/equal_elim/transitive, x 3 enclosing "
                 "proofs x subproof flag, exported and embedded by the reference; every behaviour replayed on the real code%s. ItemID: all "
@@ -125,34 +129,22 @@ def _run(rep, quick, wd):
     f_lib = pool.submit(run_driver, "x02", ["library", lib_ev, seed(), 10 if quick else 80, ",".join(theories)], timeout=7200)
     f_ids = pool.submit(model_check, "X02_ItemId", "X02_ItemId_small.cfg" if quick else "X02_ItemId_deep.cfg", wd=wd / "mc_ids", workers=1,
                         timeout=7200)
-    cfgs = ["X02_Export_small.cfg", "X02_Export_deep.cfg"] if quick else ["X02_Export_deep.cfg", "X02_Export_deeper.cfg"]
-    logs = []
-    for cfg in cfgs:
-        r = model_check("X02_Export", cfg, wd=wd / "mc", workers=2 if quick else 4, timeout=7200)
-        rep.add_mc("X02_Export", r, cfg)
-        if r.violated:
-            rep.design_violation("X02_Export", r)
-            return
-        logs.append(wd / "mc" / ("X02_Export.%s.tlc.log" % cfg[:-4]))
+    cfg = "X02_Export_deep.cfg" if quick else "X02_Export_deeper.cfg"
+    r = model_check("X02_Export", cfg, wd=wd / "mc", workers=2 if quick else 4, timeout=7200)
+    rep.add_mc("X02_Export", r, "%s (MaxNodes=%d)" % (cfg, maxn))
+    if r.violated:
+        rep.design_violation("X02_Export", r)
+        return
     rep.exhaustive = True
     timing["mc_export"] = round(time.time() - t0, 1)
-    # ---- spec -> code: the behaviours of X02_Export
-    vec_ev = []
-    for k, lg in enumerate(logs):
-        p = wd / ("vec%d.ndjson" % k)
-        run_driver("x02", ["vectors", lg, p])
-        vec_ev.append(read_events(p))
-    small_keys = {e["key"] for e in vec_ev[0]}
-    more = [e for e in vec_ev[1] if e["key"] not in small_keys]
-    if quick:
-        rnd.shuffle(more)
-        more = more[:700]
-    events = vec_ev[0] + more
-    nvec = len(events)
-    rep.notes["vectors"] = {"export_behaviours": len(small_keys) + len([e for e in vec_ev[1] if e["key"] not in small_keys]), "replayed": nvec}
+    # ---- spec -> code: the behaviours of X02_Export (the log of MaxNodes=n contains every behaviour of fewer nodes too)
+    vec_p = wd / "vec.ndjson"
+    p, _ = run_driver("x02", ["vectors", wd / "mc" / ("X02_Export.%s.tlc.log" % cfg[:-4]), vec_p] + ([3, 500, seed()] if quick else []))
+    events = read_events(vec_p)
+    rep.notes["vectors"] = {"driver": p.stdout.strip().splitlines()[-2:], "replayed": len(events)}
     # ---- code -> spec: seeded proof terms, library
     rnd_ev = wd / "rnd.ndjson"
-    run_driver("x02", ["random", 500 if quick else 6000, rnd_ev, seed()])
+    run_driver("x02", ["random", 400 if quick else 4000, rnd_ev, seed()])
     events += read_events(rnd_ev)
     f_lib.result()
     events += read_events(lib_ev)
@@ -244,6 +236,12 @@ def _run(rep, quick, wd):
                  ("lib/round-trip", 100), ("lib/atoms", 50), ("lib/cited-twice", 10)):
         require(tags.get(t, 0) >= m, "X02: pattern %s exercised only %d times (< %d): vacuity guard" % (t, tags.get(t, 0), m))
     require(fams.get("ids/tlc", [0, 0])[1] >= 200 and fams.get("ids/rnd", [0, 0])[1] >= 100, "X02: too few identifier edits examined")
+    ops = {}
+    for e in events:
+        if e["kind"] == "ids" and e["tid"] in nt:
+            ops[e["op"][0]] = ops.get(e["op"][0], 0) + 1
+    rep.notes["identifier_edits"] = ops
+    require(ops.get("ins", 0) >= 100 and ops.get("rem", 0) >= 50, "X02: insert / remove steps hardly examined: %s" % ops)
 
 
 def replay(path):
